@@ -169,6 +169,10 @@ class PCoin(PStochasticPattern):
     def __repr__(self):
         return ("PCoin(%s)" % self.probability)
 
+    def reset(self):
+        super().reset()
+        self.current_value = 1.0 if self.regular else 0.0
+
     def __next__(self):
         probability = Pattern.value(self.probability)
         regular = Pattern.value(self.regular)
